@@ -179,6 +179,14 @@ bool buffergroup::turn_iter()
   return true;
 };
 /*
+wait_buffer_ready:工作线程在首次访问缓冲区前等待其就绪(或无效)
+id:缓冲区标号
+*/
+void buffergroup::wait_buffer_ready(const u8_t id)
+{
+  ctrl[id].wait_ready();
+}
+/*
 require_buffer_entry:获取下一个缓冲区表项
 id:缓冲区标号
 return:表项地址，若缓冲区已经读取完毕返回NULL
